@@ -98,6 +98,7 @@ func (b *bytesBody) Close() error               { return nil }
 
 type c09Written struct {
 	u    wunit
+	gop  int // key frames of the leading track written before this unit's write, this one included, minus one
 	k    int
 	dts  int64
 	pts  int64
@@ -118,6 +119,7 @@ type c09State struct {
 	writeErr   error
 	start      time.Time
 	writerDone bool
+	gops       int
 	ext        *h264.DTSExtractor
 }
 
@@ -269,11 +271,14 @@ func c09Harness(sc c09Scen) vsched.Harness {
 						if sc.Cfg.Tracks[u.Track].Kind == "h265b" {
 							dts = u.DTS - h265bLag[u.POC]
 						}
-						st.written[u.Track] = append(st.written[u.Track], c09Written{u: u, dts: dts, pts: u.DTS, data: data})
+						if u.RA && u.Track == sc.Cfg.leading() {
+							st.gops++
+						}
+						st.written[u.Track] = append(st.written[u.Track], c09Written{u: u, gop: st.gops - 1, dts: dts, pts: u.DTS, data: data})
 					} else {
 						for k := range data {
 							at := u.DTS + sc.Cfg.audioSpan(sc.Cfg.Tracks[u.Track], k)
-							st.written[u.Track] = append(st.written[u.Track], c09Written{u: u, k: k, dts: at, pts: at, data: [][]byte{data[k]}})
+							st.written[u.Track] = append(st.written[u.Track], c09Written{u: u, gop: st.gops - 1, k: k, dts: at, pts: at, data: [][]byte{data[k]}})
 						}
 					}
 				}
@@ -604,7 +609,9 @@ func c09Harness(sc c09Scen) vsched.Harness {
 						add("unit-time", "track %d (%s): unit %d delivered with time %d, want %d (written %d minus the first delivered leading DTS %d, in %d Hz)", i, t.Kind, n, gd, wantDTS, w.dts, origin, outClock)
 						break
 					}
-					if f.d.AbsOK {
+					if f.d.AbsOK && !(cfg.NTPStepMS != 0 && ti != leadTi) {
+						// (with a stepped publisher clock only the leading track is checked: which segment a rendition's unit next
+						// to a cut lands in depends on write order and on the muxer's one-sample look-ahead)
 						// the NTP time written with the first unit of the unit's segment plus the DTS distance between the two. The
 						// harness writes NTP = T0 + presentation time, so this is T0 + DTS(unit) + (PTS - DTS)(first unit of the segment);
 						// the last term is 0 unless the segment starts with a reordered-stream key frame (h264b), where every
@@ -631,6 +638,37 @@ func c09Harness(sc c09Scen) vsched.Harness {
 						for _, dl := range deltas {
 							b := base + dl
 							wantAbs = verifT0.Add(time.Duration(b/clock)*time.Second + time.Duration(b%clock)*time.Second/time.Duration(clock))
+							if cfg.NTPStepMS != 0 {
+								// (regular words: a segment per second of media) the step the publisher's clock had taken when the unit's
+								// segment was opened. MPEG-TS: a unit is in the segment that was open when it was written; fMP4 variants:
+								// samples are assigned by decode time, and the last sample of a rendition before a cut is flushed after it
+								// (it waits for its successor to learn its duration), so it may land on either side
+								ks := []int64{int64(w.gop)}
+								if cfg.Variant != "mpegts" {
+									count := func(at int64) int64 {
+										k := int64(-1)
+										for _, r := range st.written[leadTi] {
+											if r.u.RA && r.dts*clock <= at*leadClock {
+												k++
+											}
+										}
+										return k
+									}
+									ks = []int64{count(w.dts)}
+									if ti != leadTi && k0+n+1 < len(st.written[ti]) {
+										if k2 := count(st.written[ti][k0+n+1].dts); k2 != ks[0] {
+											ks = append(ks, k2)
+										}
+									}
+								}
+								base0 := wantAbs
+								for _, k := range ks {
+									wantAbs = base0.Add(time.Duration(k*k*int64(cfg.NTPStepMS)) * time.Millisecond)
+									if d := f.d.Abs.Sub(wantAbs); d <= 2*time.Millisecond && d >= -2*time.Millisecond {
+										break
+									}
+								}
+							}
 							if d := f.d.Abs.Sub(wantAbs); d <= 2*time.Millisecond && d >= -2*time.Millisecond {
 								okAbs = true
 								break
@@ -707,6 +745,10 @@ func c09Scens(tier string) []c09Scen {
 		mcfg("mpegts", false, 3, "h264k"),
 		mcfg("fmp4", false, 3, "h265b", "aac44"), // reordered H265: decode and presentation times differ
 		mcfg("ll", false, 7, "h265b"),
+		// a publisher whose clock is stepped between segments: every segment is dated on its own
+		func() muxCfg { c := mcfg("mpegts", false, 3, "h264", "aac44"); c.NTPStepMS = 7; return c }(),
+		func() muxCfg { c := mcfg("fmp4", false, 3, "h264", "aac44"); c.NTPStepMS = 7; return c }(),
+		// (not Low-Latency: the date of a part of the open segment is extrapolated from the last complete segment's by design)
 	}
 	for i := range cfgs {
 		if cfgs[i].Variant == "ll" {
@@ -721,6 +763,9 @@ func c09Scens(tier string) []c09Scen {
 		for _, entry := range []string{"index", "media"} {
 			for _, word := range []string{"regular", "params", "sparse", "params-nonra"} {
 				if word == "params-nonra" && !(len(cfg.Tracks) == 1 && cfg.Tracks[0].Kind == "h264" && cfg.Variant != "mpegts") {
+					continue
+				}
+				if cfg.NTPStepMS != 0 && word != "regular" {
 					continue
 				}
 				hasVideo := cfg.Tracks[cfg.leading()].video()
